@@ -1,4 +1,5 @@
 import MioModel.Net
+import MioModel.Accept
 import Driver.Evq
 /-! Line-protocol handler for M5: `net hist <items…>` — a recorded single-adapter history (user calls
 with their results and the events the callback saw, in the order they happened).  The driver
@@ -190,6 +191,11 @@ def runNet (ws : List String) : String :=
   | ["race", _, n, th] => match n.toNat?, th.toNat? with
     | some n, some th => runNetRace n th
     | _, _ => "bad-case"
+  | ["emfile", _] =>
+    -- one connection accepted, then the kernel answers EMFILE to every further accept(): the loop makes
+    -- one call, leaves, and the network thread is back at its look at the running flag
+    let r := Mio.Accept.acceptLoop [.error, .error, .error, .error, .error, .error]
+    s!"stopped_in_time={r.ended && r.consumed == 1}"
   | "hist" :: toks => runNetHist toks
   | _ => "bad-case"
 
